@@ -242,6 +242,13 @@ Plan gen_plan(int prop, uint64_t runseed) {
             o.fault |= F_ALLOC;
             o.fa = 1 + (r.below(3) ? 0 : r.below(3) ? r.below(3) : r.below(12));
         }
+        if (META[o.kind].fam == MA && o.kind != SS_APPEND_CHAR && r.below(5) == 0) {
+            // a pair: top the same stream up to within 0..23 bytes of its capacity first, so the append that follows straddles a boundary
+            Op f; f.kind = SS_APPEND_CHAR; f.t = 0; f.a = o.a; f.b = r.below(95); f.c = 0; f.d = 1 + r.below(24);
+            Op t = o;
+            p.ops.back() = f; p.ops.push_back(t);
+            continue;
+        }
         if (corrupt_rate && (o.kind == S_CONSTRUCT || o.kind == S_ASSIGN || o.kind == S_SET) && r.below(12) == 0) {
             // a pair: build a char buffer from corrupted text of a chosen size class, then hand exactly that buffer to the string operation
             // (as lvalue or rvalue) - otherwise "rvalue buffer + invalid + heap-sized" needs three independent draws to line up
